@@ -1,4 +1,5 @@
 """C16 - serialisation is well-formed, escaping-safe, deterministic and side-effect free."""
+from decimal import Decimal
 import xml.etree.ElementTree as ET
 
 from hypothesis import strategies as st
@@ -13,7 +14,7 @@ from . import c14
 RULE = ('element trees (depth<=4) built from oracle-valid child words; into EVERY string-typed text position '
         '(xs:string / xs:token primitives without enumeration) and string-typed attribute position a Hypothesis-drawn '
         'string over the XML Char production minus CR is injected (biased to < > & " \' ]]> TAB LF, whitespace runs, '
-        'non-BMP, combining marks); values the library rejects are discarded (the property is about accepted '
+        'non-BMP, combining marks), and into unbounded decimal-typed text and attribute positions floats whose repr needs the exponent notation or many digits (the recovered text must be a plain decimal literal of exactly that value); values the library rejects are discarded (the property is about accepted '
         'values).  Oracle: xml.etree parses to_string(); every injected text and attribute value is recovered '
         'exactly and the element structure equals get_children(ordered); three repeated calls return identical '
         'text; every subtree serialised alone equals its fragment in the parent\'s output once indentation '
@@ -50,6 +51,30 @@ def string_type(tname):
     return 'minlen' if ti.min_length else 'free'
 
 
+# numbers whose repr uses the exponent notation or many digits: the text must give back exactly this number
+FINE_FLOATS = [1.234e-05, 1.25e-07, -3.3e-09, 2.5e-05, 1e-05, 0.1 + 0.2, 123456.789012345, 1e+16, -0.0001234567, 7e-10]
+
+
+def free_decimal(tname):
+    """decimal (not integer) simple type without bounds: every finite float is a value"""
+    if tname is None:
+        return False
+    ti = lexical.info(tname)
+    return ti.union is None and ti.primitive == 'decimal' and not ti.is_integer and ti.enumeration is None and \
+        all(b is None for b in (ti.min_inc, ti.max_inc, ti.min_exc, ti.max_exc))
+
+
+def same_value(val, txt):
+    """does the recovered text stand for the value that was set?  strings exactly; numbers by value, and the text
+    must be a plain decimal literal"""
+    if isinstance(val, (int, float)) and not isinstance(val, bool):
+        try:
+            return 'e' not in txt.lower() and Decimal(txt) == Decimal(repr(val))
+        except ArithmeticError:
+            return False
+    return str(val) == txt
+
+
 def inject(data, plan, log):
     s = schema()
     if plan.get('stub'):
@@ -62,7 +87,15 @@ def inject(data, plan, log):
             v = v.replace(',', ';') or 'x'
         plan['value'] = [v]
         log.append(v)
+    tt = s.text_type(t)
+    if not k and free_decimal(tt) and data.draw(st.integers(0, 2)) == 0:
+        plan['value'] = [data.draw(st.sampled_from(FINE_FLOATS))]
+        log.append('float')
     for a in c14.usable_attrs(t):
+        if free_decimal(a['type']) and data.draw(st.integers(0, 3)) == 0:
+            plan['ctor'][a['qname']] = data.draw(st.sampled_from(FINE_FLOATS))
+            log.append('float')
+            continue
         ka = string_type(a['type'])
         if ka and data.draw(st.integers(0, 1)) == 0:
             v = data.draw(xml_text())
@@ -89,17 +122,17 @@ def compare_tree(e, node, path='root'):
     """python element vs parsed node; returns description of first mismatch or None"""
     if node.tag != e.name:
         return {'at': path, 'tag': node.tag, 'name': e.name}
-    want = {k: str(v) for k, v in dict(e.attributes).items()}
-    if dict(node.attrib) != want:
-        return {'at': path, 'attributes': dict(node.attrib), 'set': want}
+    want = dict(e.attributes)
+    if set(node.attrib) != set(want) or any(not same_value(v, node.attrib[k]) for k, v in want.items()):
+        return {'at': path, 'attributes': dict(node.attrib), 'set': {k: repr(v) for k, v in want.items()}}
     kids = call(e.get_children, True).value or []
     if len(kids) != len(node):
         return {'at': path, 'children': [c.tag for c in node], 'ordered': [c.name for c in kids]}
     if not kids:
         val = e.value_
         txt = node.text or ''
-        if val is not None and str(val) != txt:
-            return {'at': path, 'text': txt, 'value': str(val)}
+        if val is not None and not same_value(val, txt):
+            return {'at': path, 'text': txt, 'value': repr(val)}
     for i, (c, n) in enumerate(zip(kids, node)):
         d = compare_tree(c, n, '%s/%s[%d]' % (path, c.name, i))
         if d:
